@@ -906,6 +906,43 @@ def r10_6(prog, chk):
     chk.floor("R10.6", n, 1)
 
 
+# R10.7: members on which the two copy operations legitimately differ (one line of reason each, confirmed by reading)
+R107_ACCEPTED = {
+    ("ACov", "_isOptimPreProcessed"): "flag of the projected-point cache, true only between optimizationPreProcess and optimizationPostProcess, "
+                                      "which R10.1a pairs on every path: whenever an ACov can be copied from outside the flag is false, so "
+                                      "resetting it (constructor) and copying it (operator=) give the same object",
+    ("GibbsMMulti", "_weights"): "scratch vector: the copy constructor re-sizes it through _allocate(), and _calculateWeights() rewrites it "
+                                  "(solve) before every read; copying or not copying its content is not observable",
+}
+
+
+def r10_7(prog, chk, tier, units_done):
+    """the copy constructor and operator= of every class carry the same members and base parts (whole program: every unit
+    that defines an operator= is analysed, and the header-defined classes)"""
+    import copyrule
+    if tier == "thorough":
+        cprog = prog
+    else:
+        pat = re.compile(r"operator\s*=\s*\(")
+        extra = []
+        for u in facts.all_units():
+            if u not in units_done:
+                try:
+                    if pat.search(open(u, errors="replace").read()):
+                        extra.append(u)
+                except OSError:
+                    pass
+        cprog = Program().load_dir(extract(extra, "C10copy-" + tier))
+        for u in prog.units:
+            pass
+        cprog.load_dir(os.path.join(facts.WORK, "facts", "C10-" + tier))
+        chk.units += [u for u in cprog.units if u not in chk.units]
+    dh, excluded = facts.extract_headers("C10h-" + tier)
+    cprog.load_dir(dh)
+    n = copyrule.copy_agreement(cprog, chk, "R10.7", accepted=R107_ACCEPTED)
+    chk.floor("R10.7", n, 700)
+
+
 def main(tier):
     chk = Check("C10", tier,
                 "Static cache/hidden-state discipline only: pre/post-process pairing of the projected-point cache on "
@@ -938,6 +975,7 @@ def main(tier):
     r10_2d(prog, chk)
     r10_5(prog, chk)
     r10_6(prog, chk)
+    r10_7(prog, chk, tier, units)
     return chk.finish()
 
 
